@@ -78,6 +78,7 @@ d1::task* arena_slot::get_task(execution_data_ext& ed, isolation_type isolation)
             H0 = head.load(std::memory_order_relaxed);
             if ( (std::intptr_t)H0 > (std::intptr_t)T ) {
                 // The thief has not backed off - nothing to grab.
+                ONETBB_VERIF_PROBE("get_task:thief-not-backed-off");
                 __TBB_ASSERT( H0 == head.load(std::memory_order_relaxed)
                     && T == tail.load(std::memory_order_relaxed)
                     && H0 == T + 1, "victim/thief arbitration algorithm failure" );
@@ -87,6 +88,7 @@ d1::task* arena_slot::get_task(execution_data_ext& ed, isolation_type isolation)
                 break;
             } else if ( H0 == T ) {
                 // There is only one task in the task pool.
+                ONETBB_VERIF_PROBE("get_task:tie-last-task");
                 reset_task_pool_and_leave();
                 task_pool_empty = true;
             } else {
@@ -113,6 +115,7 @@ d1::task* arena_slot::get_task(execution_data_ext& ed, isolation_type isolation)
             // We just restore the bounds for the available tasks.
             // TODO: Does it have sense to move them to the beginning of the task pool?
             __TBB_ASSERT( is_quiescent_local_task_pool_reset(), nullptr );
+            ONETBB_VERIF_PROBE(result ? "get_task:omitted+empty+result" : "get_task:omitted+empty");
             if ( result ) {
                 // If we have a task, it should be at H0 position.
                 __TBB_ASSERT( H0 == T, nullptr );
@@ -161,6 +164,7 @@ d1::task* arena_slot::steal_task(arena& a, isolation_type isolation, std::size_t
         // because the owner synchronizes task spawning via tail.
         if ((std::intptr_t)H > (std::intptr_t)(tail.load(std::memory_order_acquire))) {
             // Stealing attempt failed, deque contents has not been changed by us
+            ONETBB_VERIF_PROBE(tasks_omitted ? "steal:rollback-after-omit" : "steal:rollback");
             head.store( /*dead: H = */ H0, std::memory_order_relaxed );
             __TBB_ASSERT( !result, nullptr );
             goto unlock;
@@ -193,6 +197,7 @@ d1::task* arena_slot::steal_task(arena& a, isolation_type isolation, std::size_t
 
     // emit "task was consumed" signal
     poison_pointer( victim_pool[H-1] );
+    ONETBB_VERIF_PROBE("steal:success");
     if (tasks_omitted) {
         // Some proxies in the task pool have been omitted. Set the stolen task to nullptr.
         victim_pool[H-1] = nullptr;
